@@ -4,7 +4,7 @@
 //      and the stopping tests certify eps-optimality:  econverged && sconverged  =>  f(x^) - f(z) <= eps*sqrt(n)*(1+|z-x^|)
 //      (b) ellipsoid method on a sharp convex function with the minimiser inside the initial radius: `converged`
 //      => f(x_ret) - f* <= 10*eps; and a run that reports max_iters has exhausted its budget
-// config: mode=<bundle|ellipsoid>;d=<1|2>;ops=<k>;pat=<bits: 1 = serious step>;
+// config: mode=<bundle|ellipsoid|bsolver>;solver=<rqb|fpba1|fpba2>;bsize=<bundle max_size>;evals=<max_evals>;d=<1|2>;ops=<k>;pat=<bits: 1 = serious step>;
 #include "hcommon.h"
 #include <nano/solver.h>
 #include <nano/solver/bundle.h>
@@ -119,6 +119,33 @@ extern "C" void sym_body()
                 const double dist = n == 1 ? ab(z(0) - bundle.m_x(0)) : std::sqrt(d2);
                 SYM_LE_(bundle.m_fx - f.value(z), tol * (1.0 + dist), "econverged && sconverged => f(x^) - f(z) <= eps*sqrt(n)*(1+|z-x^|) for every z");
             }
+        }
+        return;
+    }
+    // bundle solvers (RQB, FPBA1, FPBA2) end to end on a sharp function, bundle::max_size = 2 (analytic multiplier update):
+    // `converged` => f(x) - f* <= 2*eps*sqrt(n)*(1 + |x - x*|) at the RETURNED point
+    if (mode == "bsolver")
+    {
+        cvx_t             f(n, 1.0, false);
+        const std::string id     = cfg("solver", "rqb");
+        auto              solver = solver_t::all().get(id);
+        SYM_CHECK(static_cast<bool>(solver), "solver id registered");
+        const double eps = cfgi("epsc", 0) ? 1e-6 : sym_box("eps", 1e-8, 1e-3);
+        solver->parameter("solver::epsilon")   = eps;
+        solver->parameter("solver::max_evals") = cfgi("evals", 10);
+        solver->parameter("solver::" + id + "::bundle::max_size") = cfgi("bsize", 2);
+        vector_t x0(n);
+        for (tensor_size_t i = 0; i < n; ++i) x0(i) = sym_box(sym_nm("x", i), -8.0, 8.0);
+        const auto state = solver->minimize(f, x0, make_null_logger());
+        SYM_CHECK(state.status() == solver_status::converged || state.status() == solver_status::max_iters || state.status() == solver_status::failed, "status is one of converged/max_iters/failed");
+        vector_t xr = state.x();
+        SYM_EQ_(state.fx(), f.value(xr), "reported value = function value at the returned point");
+        if (state.status() == solver_status::converged)
+        {
+            double d2 = 0.0;
+            for (tensor_size_t i = 0; i < n; ++i) d2 = d2 + (xr(i) - f.b(i)) * (xr(i) - f.b(i));
+            const double dist = std::sqrt(d2);
+            SYM_LE_(f.value(xr), 2.0 * eps * std::sqrt(static_cast<double>(n)) * (1.0 + dist), "bundle solver converged => f(x) - f* <= 2*eps*sqrt(n)*(1+|x-x*|) at the returned point");
         }
         return;
     }
